@@ -206,7 +206,16 @@ class Api:
                 elif flavour == "caller":
                     await api.at.check_for_updates()    # an application reacting to news with a request of its own
                 if raises:
-                    raise RuntimeError("subscriber %s raises" % sid)
+                    # applications raise all sorts of things: with a message, without arguments (a bare TimeoutError from a wait_for,
+                    # a failed assert, a KeyError)
+                    k = sum(sid.encode()) % 4
+                    if k == 0:
+                        raise RuntimeError("subscriber %s raises" % sid)
+                    if k == 1:
+                        raise TimeoutError
+                    if k == 2:
+                        raise AssertionError
+                    raise KeyError
 
             def __hash__(self):
                 return hash((kind, sid))
